@@ -40,6 +40,11 @@ type PropConfig struct {
 	OrderFns        []string       `json:"order_functions"` // functions whose output must not depend on map iteration order
 	FlagRules       []FlagRule     `json:"flag_rules"`      // configuration fields read only to guard one call
 	PurityPkgs      []string       `json:"purity_packages"` // every stage closure of these packages gets the purity rule (no symbolic execution)
+	// functions under contract whose anonymous functions must all be under contract too ("*": every
+	// listed function): a closure added to such a function is code outside the proof and is
+	// reported as <closure>/contract/applies
+	Closed     []string `json:"closed"`
+	ClosedSkip []string `json:"closed_skip"`
 }
 
 type ReplayDriver struct {
@@ -167,6 +172,37 @@ func runCheck(args []string) int {
 		}
 		nContract++
 		works = append(works, work{f, name, false})
+	}
+	if os.Getenv("VERIF_CLOSED_REPORT") != "" { // development aid: list every unlisted closure
+		cfg.Closed = []string{"*"}
+	}
+	if len(cfg.Closed) > 0 {
+		listed := map[string]bool{}
+		for _, n := range cfg.Functions {
+			listed[n] = true
+		}
+		for _, n := range cfg.ClosedSkip {
+			listed[n] = true
+		}
+		closed := cfg.Closed
+		if len(closed) == 1 && closed[0] == "*" {
+			closed = cfg.Functions
+		}
+		for _, name := range closed {
+			f := e.findFunction(name)
+			if f == nil {
+				continue
+			}
+			for _, a := range f.AnonFuncs {
+				if n := funcFullName(a); !listed[n] {
+					if os.Getenv("VERIF_CLOSED_REPORT") != "" {
+						fmt.Println("closed-report:", n)
+						continue
+					}
+					drift = append(drift, n+": anonymous function of "+name+" (under contract) is itself not under contract")
+				}
+			}
+		}
 	}
 	skip := map[string]bool{}
 	for _, s := range cfg.SweepSkip {
